@@ -389,4 +389,537 @@ theorem solveRec_frame (lt : Var → Var → Bool) (cons : List (Constraint Var 
         · exact StEq.refl st
         · exact tryValues_frame _ (solveRec_frame lt cons fuel) cons _ asg _ st
 
+
+/-! ## keys are never touched -/
+
+theorem keys_tryOne (rec : Store Var Val → Asg Var Val → List (Asg Var Val) × Store Var Val)
+    (hrec : ∀ st asg, (rec st asg).2.map Prod.fst = st.map Prod.fst) (cons : List (Constraint Var Val)) (var : Var)
+    (asg : Asg Var Val) (v : Val) (st : Store Var Val) :
+    (tryOne rec cons var asg v st).2.map Prod.fst = st.map Prod.fst := by
+  unfold tryOne
+  simp only [keys_upd]
+  split
+  · rw [hrec, keys_checkAll, keys_upd]
+  · rw [keys_checkAll, keys_upd]
+
+theorem keys_tryValues (rec : Store Var Val → Asg Var Val → List (Asg Var Val) × Store Var Val)
+    (hrec : ∀ st asg, (rec st asg).2.map Prod.fst = st.map Prod.fst) (cons : List (Constraint Var Val)) (var : Var)
+    (asg : Asg Var Val) : ∀ (vals : List Val) (st : Store Var Val),
+    (tryValues rec cons var asg vals st).2.map Prod.fst = st.map Prod.fst
+  | [], st => rfl
+  | v :: vs, st => by
+      unfold tryValues
+      simp only
+      rw [keys_tryValues rec hrec cons var asg vs, keys_tryOne rec hrec]
+
+theorem keys_solveRec (lt : Var → Var → Bool) (cons : List (Constraint Var Val)) :
+    ∀ (fuel : Nat) (st : Store Var Val) (asg : Asg Var Val),
+    (solveRec lt cons fuel st asg).2.map Prod.fst = st.map Prod.fst
+  | 0, st, asg => by unfold solveRec; split <;> rfl
+  | fuel + 1, st, asg => by
+      unfold solveRec
+      split
+      · rfl
+      · split
+        · rfl
+        · exact keys_tryValues _ (keys_solveRec lt cons fuel) cons _ asg _ st
+
+/-! ## variable selection -/
+
+theorem foldl_best_mem {α : Type} (f : α → α → Bool) : ∀ (cs : List α) (c : α),
+    cs.foldl (fun best x => if f x best = true then x else best) c ∈ c :: cs
+  | [], c => by simp
+  | x :: xs, c => by
+      simp only [List.foldl_cons]
+      have := foldl_best_mem f xs (if f x c = true then x else c)
+      rcases List.mem_cons.mp this with h | h
+      · rw [h]; split <;> simp
+      · exact List.mem_cons_of_mem _ (List.mem_cons_of_mem _ h)
+
+theorem selectVar_some {lt : Var → Var → Bool} {cons : List (Constraint Var Val)} {asg : Asg Var Val}
+    {st : Store Var Val} {var : Var} (h : selectVar lt cons asg st = some var) :
+    unassigned asg var = true ∧ var ∈ st.map Prod.fst := by
+  unfold selectVar at h
+  split at h
+  · simp at h
+  · next c cs hf =>
+    simp only [Option.some.injEq] at h
+    have hm := foldl_best_mem (tupleLt lt) cs c
+    rw [← hf, List.mem_filterMap] at hm
+    obtain ⟨e, he, hsome⟩ := hm
+    by_cases hu : unassigned asg e.1 = true
+    · simp only [hu, if_true, Option.some.injEq] at hsome
+      rw [← hsome] at h
+      simp only at h
+      subst h
+      exact ⟨hu, List.mem_map.mpr ⟨e, he, rfl⟩⟩
+    · simp [hu] at hsome
+
+theorem selectVar_none {lt : Var → Var → Bool} {cons : List (Constraint Var Val)} {asg : Asg Var Val}
+    {st : Store Var Val} (h : selectVar lt cons asg st = none) :
+    ∀ x ∈ st.map Prod.fst, unassigned asg x = false := by
+  unfold selectVar at h
+  split at h
+  · next hf =>
+    intro x hx
+    obtain ⟨e, he, rfl⟩ := List.mem_map.mp hx
+    have := List.filterMap_eq_nil_iff.mp hf e he
+    by_cases hu : unassigned asg e.1 = true
+    · simp [hu] at this
+    · simpa using hu
+  · simp at h
+
+/-- the number of variables still to assign -/
+def unCount (asg : Asg Var Val) (ks : List Var) : Nat := (ks.filter (unassigned asg)).length
+
+theorem unCount_cons_lt (asg : Asg Var Val) (var : Var) (v : Val) : ∀ (ks : List Var), var ∈ ks →
+    unassigned asg var = true → unCount ((var, v) :: asg) ks < unCount asg ks := by
+  have hle : ∀ ks : List Var, unCount ((var, v) :: asg) ks ≤ unCount asg ks := by
+    intro ks
+    induction ks with
+    | nil => simp [unCount]
+    | cons k ks ih =>
+      unfold unCount at *
+      simp only [List.filter_cons, unassigned_cons]
+      by_cases h1 : unassigned asg k = true <;> by_cases h2 : (k != var) = true <;> simp [h1, h2] <;> omega
+  intro ks
+  induction ks with
+  | nil => simp
+  | cons k ks ih =>
+    intro hm hu
+    by_cases hk : k = var
+    · subst hk
+      have := hle ks
+      unfold unCount at *
+      simp only [List.filter_cons, unassigned_cons, hu]
+      simp
+      omega
+    · have hm' : var ∈ ks := by
+        rcases List.mem_cons.mp hm with h | h
+        · exact absurd h.symm hk
+        · exact h
+      have := ih hm' hu
+      unfold unCount at *
+      simp only [List.filter_cons, unassigned_cons]
+      by_cases h1 : unassigned asg k = true <;> simp [h1, hk] <;> omega
+
+/-! ## soundness -/
+
+theorem known_cons_of_not_mem (scope : List Var) (asg : Asg Var Val) (var : Var) (v : Val) (h : var ∉ scope) :
+    known scope ((var, v) :: asg) = known scope asg := by
+  funext x
+  unfold known
+  by_cases hx : x ∈ scope
+  · have : ¬ (x = var) := fun e => h (e ▸ hx)
+    have h' : (x == var) = false := by simpa using this
+    simp [hx, List.lookup_cons, h']
+  · simp [hx]
+
+theorem filter_unassigned_cons_of_not_mem (scope : List Var) (asg : Asg Var Val) (var : Var) (v : Val) (h : var ∉ scope) :
+    scope.filter (unassigned ((var, v) :: asg)) = scope.filter (unassigned asg) := by
+  apply List.filter_congr
+  intro x hx
+  have : ¬ (x = var) := fun e => h (e ▸ hx)
+  simp [unassigned_cons, this]
+
+/-- when the checks of a variable pass, every constraint among them whose variables are all assigned holds -/
+theorem checkAll_true_sat (asg : Asg Var Val) : ∀ (cs : List (Constraint Var Val)) (st : Store Var Val),
+    (checkAll asg cs st).1 = true → ∀ c ∈ cs, c.scope.filter (unassigned asg) = [] → c.pred (known c.scope asg) = true
+  | [], _, _, c, hc, _ => by simp at hc
+  | c0 :: cs, st, h, c, hc, hf => by
+      unfold checkAll at h
+      cases hc0 : check c0 asg st with
+      | mk ok st' =>
+        rw [hc0] at h
+        cases ok with
+        | false => simp at h
+        | true =>
+          simp only at h
+          rcases List.mem_cons.mp hc with rfl | hc'
+          · rcases check_cases c asg st with ⟨_, h1⟩ | ⟨hne, _⟩ | ⟨y, d, hy, _, _⟩
+            · rw [h1] at hc0; simp only [Prod.mk.injEq] at hc0; exact hc0.1
+            · exact absurd hf hne
+            · rw [hf] at hy; simp at hy
+          · exact checkAll_true_sat asg cs st' h c hc' hf
+
+structure SInv (cons : List (Constraint Var Val)) (D0 : Var → List Val) (st : Store Var Val) (asg : Asg Var Val) : Prop where
+  dom : ∀ x d, st.lookup x = some d → ∀ w ∈ d.vis, w ∈ D0 x
+  val : ∀ x v, asg.lookup x = some v → v ∈ D0 x
+  sat : ∀ c ∈ cons, c.scope ≠ [] → c.scope.filter (unassigned asg) = [] → c.pred (known c.scope asg) = true
+
+/-- what a yielded assignment satisfies: values of the domains, every variable assigned, every constraint (with a
+non-empty scope inside the variables) holds -/
+structure SPost (cons : List (Constraint Var Val)) (D0 : Var → List Val) (K : List Var) (s : Asg Var Val) : Prop where
+  val : ∀ x v, s.lookup x = some v → v ∈ D0 x
+  total : ∀ x ∈ K, unassigned s x = false
+  sat : ∀ c ∈ cons, c.scope ≠ [] → (∀ x ∈ c.scope, x ∈ K) → c.pred (known c.scope s) = true
+
+theorem hid_vis_sub {d d' : Dom Val} (h : Hid d d') : ∀ w ∈ d'.vis, w ∈ d.vis := by
+  obtain ⟨H, _, p, _⟩ := h
+  intro w hw
+  exact p.subset (List.mem_append_left _ hw)
+
+theorem StEq.dom_sub {st st' : Store Var Val} (h : StEq st st') {x : Var} {d' : Dom Val} (hl : st'.lookup x = some d') :
+    ∃ d, st.lookup x = some d ∧ d.vis.Perm d'.vis := by
+  have := h x
+  rw [hl] at this
+  cases hs : st.lookup x with
+  | none => rw [hs] at this; exact this.elim
+  | some d => rw [hs] at this; exact ⟨d, rfl, this.1⟩
+
+theorem SInv.of_StEq {cons : List (Constraint Var Val)} {D0 : Var → List Val} {st st' : Store Var Val} {asg : Asg Var Val}
+    (h : SInv cons D0 st asg) (e : StEq st st') : SInv cons D0 st' asg where
+  dom := by
+    intro x d' hl w hw
+    obtain ⟨d, hd, p⟩ := e.dom_sub hl
+    exact h.dom x d hd w (p.symm.subset hw)
+  val := h.val
+  sat := h.sat
+
+theorem sound_tryOne (cons : List (Constraint Var Val)) (D0 : Var → List Val) (K : List Var)
+    (rec : Store Var Val → Asg Var Val → List (Asg Var Val) × Store Var Val)
+    (hrec : ∀ st asg, SInv cons D0 st asg → st.map Prod.fst = K → ∀ s ∈ (rec st asg).1, SPost cons D0 K s)
+    (var : Var) (asg : Asg Var Val) (v : Val) (st : Store Var Val) (hv : v ∈ D0 var)
+    (hi : SInv cons D0 st asg) (hK : st.map Prod.fst = K) :
+    ∀ s ∈ (tryOne rec cons var asg v st).1, SPost cons D0 K s := by
+  intro s hs
+  unfold tryOne at hs
+  simp only at hs
+  split at hs
+  · next hok =>
+    refine hrec _ _ ?_ (by rw [keys_checkAll, keys_upd, hK]) s hs
+    constructor
+    · intro x d' hl w hw
+      have hf := checkAll_frame ((var, v) :: asg) (vcons cons var) (upd (fun x => x != var && unassigned asg x) Dom.pushState st) x
+      rw [hl, lookup_upd] at hf
+      cases hsx : st.lookup x with
+      | none => rw [hsx] at hf; exact hf.elim
+      | some d =>
+        rw [hsx] at hf
+        simp only [Option.map_some, ORel, FcRel] at hf
+        apply hi.dom x d hsx w
+        split at hf
+        · have := hid_vis_sub hf w hw
+          split at this <;> simpa [Dom.pushState] using this
+        · rw [hf] at hw
+          split at hw <;> simpa [Dom.pushState] using hw
+    · intro x w hl
+      by_cases hx : x = var
+      · subst hx
+        simp only [List.lookup_cons, beq_self_eq_true, Option.some.injEq] at hl
+        subst hl; exact hv
+      · have h' : (x == var) = false := by simpa using hx
+        simp only [List.lookup_cons, h'] at hl
+        exact hi.val x w hl
+    · intro c hc hne hf
+      by_cases hm : var ∈ c.scope
+      · exact checkAll_true_sat _ _ _ hok c (by simp [vcons, List.mem_filter, hc, hm]) hf
+      · rw [known_cons_of_not_mem _ _ _ _ hm]
+        rw [filter_unassigned_cons_of_not_mem _ _ _ _ hm] at hf
+        exact hi.sat c hc hne hf
+  · simp at hs
+
+theorem sound_tryValues (cons : List (Constraint Var Val)) (D0 : Var → List Val) (K : List Var)
+    (rec : Store Var Val → Asg Var Val → List (Asg Var Val) × Store Var Val)
+    (hrec : ∀ st asg, SInv cons D0 st asg → st.map Prod.fst = K → ∀ s ∈ (rec st asg).1, SPost cons D0 K s)
+    (hframe : ∀ st asg, StEq st (rec st asg).2) (hkeys : ∀ st asg, (rec st asg).2.map Prod.fst = st.map Prod.fst)
+    (var : Var) (asg : Asg Var Val) : ∀ (vals : List Val) (st : Store Var Val), (∀ v ∈ vals, v ∈ D0 var) →
+    SInv cons D0 st asg → st.map Prod.fst = K → ∀ s ∈ (tryValues rec cons var asg vals st).1, SPost cons D0 K s
+  | [], st, _, _, _, s, hs => by simp [tryValues] at hs
+  | v :: vs, st, hv, hi, hK, s, hs => by
+      unfold tryValues at hs
+      simp only [List.mem_append] at hs
+      rcases hs with hs | hs
+      · exact sound_tryOne cons D0 K rec hrec var asg v st (hv v (by simp)) hi hK s hs
+      · exact sound_tryValues cons D0 K rec hrec hframe hkeys var asg vs _ (fun w hw => hv w (List.mem_cons_of_mem _ hw))
+          (hi.of_StEq (tryOne_frame rec hframe cons var asg v st)) (by rw [keys_tryOne rec hkeys, hK]) s hs
+
+theorem SInv.yield {cons : List (Constraint Var Val)} {D0 : Var → List Val} {st : Store Var Val} {asg : Asg Var Val}
+    (hi : SInv cons D0 st asg) (hall : ∀ x ∈ st.map Prod.fst, unassigned asg x = false) :
+    SPost cons D0 (st.map Prod.fst) asg where
+  val := hi.val
+  total := hall
+  sat := by
+    intro c hc hne hsub
+    apply hi.sat c hc hne
+    rw [List.filter_eq_nil_iff]
+    intro x hx
+    simp [hall x (hsub x hx)]
+
+theorem sound_solveRec (lt : Var → Var → Bool) (cons : List (Constraint Var Val)) (D0 : Var → List Val) (K : List Var) :
+    ∀ (fuel : Nat) (st : Store Var Val) (asg : Asg Var Val), SInv cons D0 st asg → st.map Prod.fst = K →
+    ∀ s ∈ (solveRec lt cons fuel st asg).1, SPost cons D0 K s
+  | 0, st, asg, hi, hK, s, hs => by
+      unfold solveRec at hs
+      split at hs
+      · next hsel =>
+        simp only [List.mem_singleton] at hs
+        subst hs; subst hK
+        exact hi.yield (selectVar_none hsel)
+      · simp at hs
+  | fuel + 1, st, asg, hi, hK, s, hs => by
+      unfold solveRec at hs
+      split at hs
+      · next hsel =>
+        simp only [List.mem_singleton] at hs
+        subst hs; subst hK
+        exact hi.yield (selectVar_none hsel)
+      · next var hsel =>
+        split at hs
+        · simp at hs
+        · next d hd =>
+          exact sound_tryValues cons D0 K _ (sound_solveRec lt cons D0 K fuel) (solveRec_frame lt cons fuel)
+            (keys_solveRec lt cons fuel) var asg _ st
+            (fun w hw => hi.dom var d hd w (List.mem_reverse.mp hw)) hi hK s hs
+
+
+/-! ## following one total assignment through the search (completeness, first solution) -/
+
+/-- the keyword arguments of a constraint under a total assignment -/
+def restr (scope : List Var) (a : Var → Val) : Var → Option Val := fun x => if x ∈ scope then some (a x) else none
+
+/-- the (partial) assignments `asg` are part of the total assignment `a` -/
+def Agrees (asg : Asg Var Val) (a : Var → Val) : Prop := ∀ x v, asg.lookup x = some v → a x = v
+
+theorem unassigned_false_iff (asg : Asg Var Val) (x : Var) : unassigned asg x = false ↔ ∃ v, asg.lookup x = some v := by
+  unfold unassigned
+  cases asg.lookup x <;> simp
+
+theorem known_of_agrees_nil {scope : List Var} {asg : Asg Var Val} {a : Var → Val}
+    (hf : scope.filter (unassigned asg) = []) (hag : Agrees asg a) : known scope asg = restr scope a := by
+  funext x
+  unfold known restr
+  by_cases hx : x ∈ scope
+  · simp only [hx, if_true]
+    have : unassigned asg x = false := by
+      have := List.filter_eq_nil_iff.mp hf x hx
+      simpa using this
+    obtain ⟨v, hv⟩ := (unassigned_false_iff asg x).mp this
+    rw [hv, hag x v hv]
+  · simp [hx]
+
+theorem known_of_agrees_one {scope : List Var} {asg : Asg Var Val} {a : Var → Val} {y : Var}
+    (hf : scope.filter (unassigned asg) = [y]) (hag : Agrees asg a) :
+    known scope ((y, a y) :: asg) = restr scope a := by
+  funext x
+  unfold known restr
+  by_cases hx : x ∈ scope
+  · simp only [hx, if_true]
+    by_cases hxy : x = y
+    · subst hxy; simp [List.lookup_cons]
+    · have h' : (x == y) = false := by simpa using hxy
+      have : unassigned asg x = false := by
+        cases hu : unassigned asg x with
+        | false => rfl
+        | true =>
+          have : x ∈ scope.filter (unassigned asg) := List.mem_filter.mpr ⟨hx, hu⟩
+          rw [hf] at this
+          exact absurd (List.mem_singleton.mp this) hxy
+      obtain ⟨v, hv⟩ := (unassigned_false_iff asg x).mp this
+      simp only [List.lookup_cons, h', hv, hag x v hv]
+  · simp [hx]
+
+theorem Agrees.cons {asg : Asg Var Val} {a : Var → Val} (h : Agrees asg a) (var : Var) : Agrees ((var, a var) :: asg) a := by
+  intro x v hl
+  by_cases hx : x = var
+  · subst hx
+    simp only [List.lookup_cons, beq_self_eq_true, Option.some.injEq] at hl
+    exact hl
+  · have h' : (x == var) = false := by simpa using hx
+    simp only [List.lookup_cons, h'] at hl
+    exact h x v hl
+
+/-- a property of (the value of the followed assignment, the visible domain) that survives filtering -/
+structure QOk (Q : Val → List Val → Prop) : Prop where
+  filter : ∀ v l (p : Val → Bool), Q v l → p v = true → Q v (l.filter p)
+  ne : ∀ v l, Q v l → l ≠ []
+
+theorem qok_mem : QOk (fun (v : Val) l => v ∈ l) where
+  filter := fun v l p h hp => List.mem_filter.mpr ⟨h, hp⟩
+  ne := fun v l h => List.ne_nil_of_mem h
+
+theorem qok_last : QOk (fun (v : Val) l => l.getLast? = some v) where
+  filter := fun v l p h hp => getLast?_filter p l v h hp
+  ne := fun v l h e => by subst e; simp at h
+
+/-- every unassigned variable still has (in the sense of `Q`) the value the followed assignment gives it -/
+def PInv (Q : Val → List Val → Prop) (a : Var → Val) (st : Store Var Val) (asg : Asg Var Val) : Prop :=
+  ∀ x d, unassigned asg x = true → st.lookup x = some d → Q (a x) d.vis
+
+theorem check_keeps {Q : Val → List Val → Prop} (hQ : QOk Q) {a : Var → Val} {c : Constraint Var Val} {asg : Asg Var Val}
+    {st : Store Var Val} (hsat : c.pred (restr c.scope a) = true) (hag : Agrees asg a) (hp : PInv Q a st asg) :
+    (check c asg st).1 = true ∧ PInv Q a (check c asg st).2 asg := by
+  rcases check_cases c asg st with ⟨hf, h⟩ | ⟨_, h⟩ | ⟨y, d, hf, hl, h⟩
+  · rw [h, known_of_agrees_nil hf hag]; exact ⟨hsat, hp⟩
+  · rw [h]; exact ⟨rfl, hp⟩
+  · rw [h]
+    have hy := (mem_filter_unassigned hf).1
+    have hq : Q (a y) (fcDom c asg y d).vis := by
+      apply hQ.filter _ _ _ (hp y d hy hl)
+      rw [known_of_agrees_one hf hag]; exact hsat
+    refine ⟨?_, ?_⟩
+    · have := hQ.ne _ _ hq
+      cases hv : (fcDom c asg y d).vis with
+      | nil => exact absurd hv this
+      | cons _ _ => rfl
+    · intro x d' hx hl'
+      simp only [lookup_modify] at hl'
+      by_cases hxy : x = y
+      · subst hxy
+        rw [hl] at hl'
+        simp only [Option.map_some, if_true, Option.some.injEq] at hl'
+        rw [← hl']; exact hq
+      · cases hsx : st.lookup x with
+        | none => rw [hsx] at hl'; simp at hl'
+        | some d0 =>
+          rw [hsx] at hl'
+          simp only [Option.map_some, hxy, if_false, Option.some.injEq] at hl'
+          rw [← hl']; exact hp x d0 hx hsx
+
+theorem checkAll_keeps {Q : Val → List Val → Prop} (hQ : QOk Q) {a : Var → Val} {asg : Asg Var Val} (hag : Agrees asg a) :
+    ∀ (cs : List (Constraint Var Val)) (st : Store Var Val), (∀ c ∈ cs, c.pred (restr c.scope a) = true) →
+    PInv Q a st asg → (checkAll asg cs st).1 = true ∧ PInv Q a (checkAll asg cs st).2 asg
+  | [], st, _, hp => ⟨rfl, hp⟩
+  | c :: cs, st, hs, hp => by
+      unfold checkAll
+      have hk := check_keeps hQ (hs c (by simp)) hag hp
+      cases hc : check c asg st with
+      | mk ok st' =>
+        rw [hc] at hk
+        simp only at hk
+        rw [hk.1]
+        exact checkAll_keeps hQ hag cs st' (fun c' hc' => hs c' (List.mem_cons_of_mem _ hc')) hk.2
+
+/-- the round that assigns the followed value passes the checks and goes deeper, the followed assignment still viable -/
+theorem tryOne_path {Q : Val → List Val → Prop} (hQ : QOk Q) {a : Var → Val} (cons : List (Constraint Var Val))
+    (rec : Store Var Val → Asg Var Val → List (Asg Var Val) × Store Var Val) (var : Var) (asg : Asg Var Val)
+    (st : Store Var Val) (hsat : ∀ c ∈ cons, c.pred (restr c.scope a) = true) (hag : Agrees asg a) (hp : PInv Q a st asg) :
+    ∃ st', (tryOne rec cons var asg (a var) st).1 = (rec st' ((var, a var) :: asg)).1 ∧
+      PInv Q a st' ((var, a var) :: asg) ∧ st'.map Prod.fst = st.map Prod.fst := by
+  have hp1 : PInv Q a (upd (fun x => x != var && unassigned asg x) Dom.pushState st) ((var, a var) :: asg) := by
+    intro x d hx hl
+    rw [unassigned_cons] at hx
+    simp only [lookup_upd, hx, if_true] at hl
+    cases hsx : st.lookup x with
+    | none => rw [hsx] at hl; simp at hl
+    | some d0 =>
+      rw [hsx] at hl
+      simp only [Option.map_some, Option.some.injEq] at hl
+      rw [← hl]
+      simp only [Bool.and_eq_true] at hx
+      exact hp x d0 hx.2 hsx
+  have hk := checkAll_keeps hQ (hag.cons var) (vcons cons var) _
+    (fun c hc => hsat c (List.mem_filter.mp hc).1) hp1
+  refine ⟨_, ?_, hk.2, by rw [keys_checkAll, keys_upd]⟩
+  unfold tryOne
+  simp only [hk.1, if_true]
+
+theorem PInv.mem_of_StEq {a : Var → Val} {st st' : Store Var Val} {asg : Asg Var Val}
+    (h : PInv (fun v l => v ∈ l) a st asg) (e : StEq st st') : PInv (fun v l => v ∈ l) a st' asg := by
+  intro x d' hx hl
+  obtain ⟨d, hd, p⟩ := e.dom_sub hl
+  exact p.subset (h x d hx hd)
+
+theorem unCount_pos (asg : Asg Var Val) (ks : List Var) (var : Var) (hm : var ∈ ks) (hu : unassigned asg var = true) :
+    0 < unCount asg ks := by
+  unfold unCount
+  exact List.length_pos_of_mem (List.mem_filter.mpr ⟨hm, hu⟩)
+
+/-- what completeness gives for one followed assignment -/
+def Found (a : Var → Val) (K : List Var) (sols : List (Asg Var Val)) : Prop :=
+  ∃ s ∈ sols, Agrees s a ∧ ∀ x ∈ K, unassigned s x = false
+
+theorem complete_tryValues {a : Var → Val} (cons : List (Constraint Var Val)) (K : List Var) (n : Nat)
+    (rec : Store Var Val → Asg Var Val → List (Asg Var Val) × Store Var Val)
+    (hrec : ∀ st asg, Agrees asg a → PInv (fun v l => v ∈ l) a st asg → st.map Prod.fst = K → unCount asg K ≤ n →
+      Found a K (rec st asg).1)
+    (hframe : ∀ st asg, StEq st (rec st asg).2) (hkeys : ∀ st asg, (rec st asg).2.map Prod.fst = st.map Prod.fst)
+    (hsat : ∀ c ∈ cons, c.pred (restr c.scope a) = true)
+    (var : Var) (asg : Asg Var Val) (hag : Agrees asg a) (hn : unCount ((var, a var) :: asg) K ≤ n) :
+    ∀ (vals : List Val) (st : Store Var Val), a var ∈ vals → PInv (fun v l => v ∈ l) a st asg → st.map Prod.fst = K →
+    Found a K (tryValues rec cons var asg vals st).1
+  | [], _, hm, _, _ => by simp at hm
+  | v :: vs, st, hm, hp, hK => by
+      unfold tryValues
+      by_cases hv : v = a var
+      · subst hv
+        obtain ⟨st', he, hp', hk'⟩ := tryOne_path qok_mem cons rec var asg st hsat hag hp
+        obtain ⟨s, hs, h1, h2⟩ := hrec st' _ (hag.cons var) hp' (by rw [hk', hK]) hn
+        exact ⟨s, List.mem_append_left _ (by rw [he]; exact hs), h1, h2⟩
+      · have hm' : a var ∈ vs := by
+          rcases List.mem_cons.mp hm with h | h
+          · exact absurd h.symm hv
+          · exact h
+        obtain ⟨s, hs, h1, h2⟩ := complete_tryValues cons K n rec hrec hframe hkeys hsat var asg hag hn vs _ hm'
+          (hp.mem_of_StEq (tryOne_frame rec hframe cons var asg v st)) (by rw [keys_tryOne rec hkeys, hK])
+        exact ⟨s, List.mem_append_right _ hs, h1, h2⟩
+
+theorem lookup_some_of_mem_keys (st : Store Var Val) (x : Var) (h : x ∈ st.map Prod.fst) : ∃ d, st.lookup x = some d := by
+  have := (lookup_isSome_iff x st).mpr h
+  cases hl : st.lookup x with
+  | none => rw [hl] at this; simp at this
+  | some d => exact ⟨d, rfl⟩
+
+theorem complete_solveRec {a : Var → Val} (lt : Var → Var → Bool) (cons : List (Constraint Var Val)) (K : List Var)
+    (hsat : ∀ c ∈ cons, c.pred (restr c.scope a) = true) :
+    ∀ (fuel : Nat) (st : Store Var Val) (asg : Asg Var Val), Agrees asg a → PInv (fun v l => v ∈ l) a st asg →
+    st.map Prod.fst = K → unCount asg K ≤ fuel → Found a K (solveRec lt cons fuel st asg).1
+  | 0, st, asg, hag, hp, hK, hn => by
+      unfold solveRec
+      split
+      · next hsel => subst hK; exact ⟨asg, by simp, hag, selectVar_none hsel⟩
+      · next var hsel =>
+        have := selectVar_some hsel
+        have := unCount_pos asg K var (hK ▸ this.2) this.1
+        omega
+  | fuel + 1, st, asg, hag, hp, hK, hn => by
+      unfold solveRec
+      split
+      · next hsel => subst hK; exact ⟨asg, by simp, hag, selectVar_none hsel⟩
+      · next var hsel =>
+        have hsv := selectVar_some hsel
+        obtain ⟨d, hd⟩ := lookup_some_of_mem_keys st var hsv.2
+        rw [hd]
+        simp only
+        have hlt := unCount_cons_lt asg var (a var) K (hK ▸ hsv.2) hsv.1
+        exact complete_tryValues cons K fuel _ (complete_solveRec lt cons K hsat fuel) (solveRec_frame lt cons fuel)
+          (keys_solveRec lt cons fuel) hsat var asg hag (by omega) _ st
+          (List.mem_reverse.mpr (hp var d hsv.1 hd)) hp hK
+
+/-- the first solution: when every domain ends in the value the followed assignment gives, it is found first -/
+theorem first_solveRec {a : Var → Val} (lt : Var → Var → Bool) (cons : List (Constraint Var Val)) (K : List Var)
+    (hsat : ∀ c ∈ cons, c.pred (restr c.scope a) = true) :
+    ∀ (fuel : Nat) (st : Store Var Val) (asg : Asg Var Val), Agrees asg a →
+    PInv (fun v l => l.getLast? = some v) a st asg → st.map Prod.fst = K → unCount asg K ≤ fuel →
+    ∃ s, (solveRec lt cons fuel st asg).1.head? = some s ∧ Agrees s a ∧ ∀ x ∈ K, unassigned s x = false
+  | 0, st, asg, hag, hp, hK, hn => by
+      unfold solveRec
+      split
+      · next hsel => subst hK; exact ⟨asg, by simp, hag, selectVar_none hsel⟩
+      · next var hsel =>
+        have := selectVar_some hsel
+        have := unCount_pos asg K var (hK ▸ this.2) this.1
+        omega
+  | fuel + 1, st, asg, hag, hp, hK, hn => by
+      unfold solveRec
+      split
+      · next hsel => subst hK; exact ⟨asg, by simp, hag, selectVar_none hsel⟩
+      · next var hsel =>
+        have hsv := selectVar_some hsel
+        obtain ⟨d, hd⟩ := lookup_some_of_mem_keys st var hsv.2
+        rw [hd]
+        simp only
+        have hlt := unCount_cons_lt asg var (a var) K (hK ▸ hsv.2) hsv.1
+        obtain ⟨ys, hys⟩ := List.getLast?_eq_some_iff.mp (hp var d hsv.1 hd)
+        have hrev : d.vis.reverse = a var :: ys.reverse := by rw [hys]; simp
+        rw [hrev]
+        unfold tryValues
+        obtain ⟨st', he, hp', hk'⟩ := tryOne_path qok_last cons (solveRec lt cons fuel) var asg st hsat hag hp
+        obtain ⟨s, hs, h1, h2⟩ := first_solveRec lt cons K hsat fuel st' _ (hag.cons var) hp' (by rw [hk', hK]) (by omega)
+        refine ⟨s, ?_, h1, h2⟩
+        simp only [he]
+        cases hsol : (solveRec lt cons fuel st' ((var, a var) :: asg)).1 with
+        | nil => rw [hsol] at hs; simp at hs
+        | cons s0 rest => rw [hsol] at hs; simpa using hs
+
 end Pkgcore.C10.Solver
